@@ -21,7 +21,8 @@
 (* constructor argument) per slot; used from ONE thread a slot holds the   *)
 (* number of this thread's open handles on keys of that slot, nothing else.*)
 (*                                                                         *)
-(* Kind          object                              deviations            *)
+(* kind (chosen in Init from the constant Kinds, fixed for the history)    *)
+(* kind          object                              deviations            *)
 (* "null"        NullCacher (48-62)                  stores nothing, the   *)
 (*               getter is called on EVERY get_set, its value passes       *)
 (*               through untouched ("A cacher which does not cache")       *)
@@ -62,7 +63,11 @@
 (* GetSet is written as the code's steps: clean a zero-length file         *)
 (* (119-120) -> hit? -> (miss) write lock -> getter runs / raises ->       *)
 (* lines written / generator raises half-way -> entry complete or removed  *)
-(* (122-135) -> context manager (137).                                     *)
+(* (122-135; the same clean-up when opening / writing the file fails) ->   *)
+(* context manager (137).  Every step appends to `hist` what the call must *)
+(* return / raise (`obs`: outcome, exception class, lines read, getter     *)
+(* called or not) and the whole abstract state after it (`post`); the      *)
+(* driver compares both with the real object after every call.             *)
 (*                                                                         *)
 (* Getter forms (f): fn_list / fn_gen / fn_iter / fn_term = a function     *)
 (* returning a list / a generator (lazy) / an iterator / a list of lines   *)
